@@ -653,10 +653,11 @@ type stats struct {
 	// failures seen on a reader reused through SetReader are re-run on a fresh
 	// reader; reusedOnly counts those that a fresh reader did not reproduce.
 	reusedRetry, reusedOnly int64
+	cpu                     map[string]time.Duration // busy time by family
 }
 
 func newStats() *stats {
-	return &stats{layouts: map[string]int64{}, layoutHash: map[uint64]struct{}{}, classes: map[string]*class{}, br: bufio.NewReaderSize(nil, 4096)}
+	return &stats{layouts: map[string]int64{}, layoutHash: map[uint64]struct{}{}, classes: map[string]*class{}, br: bufio.NewReaderSize(nil, 4096), cpu: map[string]time.Duration{}}
 }
 
 func (s *stats) record(l *layout, recs []rec, rk int, stream []byte, fl *failure) {
@@ -702,6 +703,8 @@ func guard(fn func() *failure) (fl *failure) {
 
 func runJob(j job, s *stats) {
 	l := j.l
+	t0 := time.Now()
+	defer func() { s.cpu[l.family] += time.Since(t0) }()
 	s.layouts[l.family]++
 	h := fnv.New64a()
 	h.Write([]byte(l.str))
@@ -864,7 +867,7 @@ func main() {
 	}()
 	b := tierBounds(readerEncs)
 
-	deadline := ev.Deadline(100*time.Second, 25*time.Minute)
+	deadline := ev.Deadline(180*time.Second, 40*time.Minute)
 	jobs := make(chan job, 256)
 	var wg sync.WaitGroup
 	all := make([]*stats, ev.Workers())
@@ -909,6 +912,9 @@ func main() {
 			tot.byRK[i] += s.byRK[i]
 		}
 		tot.records += s.records
+		for k, v := range s.cpu {
+			tot.cpu[k] += v
+		}
 		tot.reusedRetry += s.reusedRetry
 		tot.reusedOnly += s.reusedOnly
 		tot.execs += s.execs
@@ -965,6 +971,11 @@ func main() {
 	r.Set("truncation_cuts", map[string]int64{"cuts": tot.ti.cuts, "unexpected_eof": tot.ti.unexpectedEOF, "other_error": tot.ti.otherErr,
 		"record_returned_without_error": tot.ti.bogusRecord, "complete_prefix_not_read_back": tot.ti.prefixAnomaly})
 	r.Set("reader_reuse", map[string]int64{"failures_rerun_on_fresh_reader": tot.reusedRetry, "not_reproduced_by_fresh_reader": tot.reusedOnly})
+	busy := map[string]float64{}
+	for k, v := range tot.cpu {
+		busy[k] = float64(int(v.Seconds()*10)) / 10
+	}
+	r.Set("worker_busy_seconds_by_family", busy)
 	r.Set("number_spellings", len(allNF))
 	r.Set("text_encodings", func() []string {
 		var o []string
